@@ -148,6 +148,18 @@ type Case struct {
 // error unless the property package recovers it itself.
 func Run(t testing.TB, prop, family string, n int, fn func(c *Case)) {
 	e := GetEnv()
+	if fams := os.Getenv("VERIF_FAMILIES"); fams != "" && e.Only == "" {
+		// amplified children run only the (concurrent) families named by the driver
+		found := false
+		for _, f := range strings.Split(fams, ",") {
+			if f == family {
+				found = true
+			}
+		}
+		if !found {
+			return
+		}
+	}
 	base := NewRand(e.Seed).Split(prop + "/" + family)
 	for i := 0; i < n; i++ {
 		if e.Only != "" {
